@@ -56,65 +56,50 @@ func propagateMatchers(binOp *parser.BinaryExpr) {
 		return
 	}
 
-	lhMatchers := toMatcherMap(lhSelector)
-	rhMatchers := toMatcherMap(rhSelector)
-	union, hasDuplicates := makeUnion(lhMatchers, rhMatchers)
-	if hasDuplicates {
+	lhMatchers := withoutMetricName(lhSelector.LabelMatchers)
+	rhMatchers := withoutMetricName(rhSelector.LabelMatchers)
+	if haveCommonMatcher(lhMatchers, rhMatchers) {
 		return
 	}
 
-	finalMatchers := toSlice(union)
-	lhSelector.LabelMatchers = finalMatchers
-	rhSelector.LabelMatchers = finalMatchers
+	// Each selector keeps its own matchers (the metric name among them)
+	// and gets the matchers of the other side in addition.
+	lhSelector.LabelMatchers = withMatchers(lhSelector.LabelMatchers, rhMatchers)
+	rhSelector.LabelMatchers = withMatchers(rhSelector.LabelMatchers, lhMatchers)
 }
 
-func toSlice(union map[string]*labels.Matcher) []*labels.Matcher {
-	finalMatchers := make([]*labels.Matcher, 0, len(union))
-	for _, m := range union {
-		finalMatchers = append(finalMatchers, m)
-	}
-
-	sort.Slice(finalMatchers, func(i, j int) bool { return finalMatchers[i].Name < finalMatchers[j].Name })
-	return finalMatchers
+// withMatchers returns own followed by extra. The metric name matchers stay
+// in front, the other matchers are sorted by label name.
+func withMatchers(own, extra []*labels.Matcher) []*labels.Matcher {
+	res := append(own[:len(own):len(own)], extra...)
+	sort.SliceStable(res, func(i, j int) bool {
+		iName, jName := res[i].Name == labels.MetricName, res[j].Name == labels.MetricName
+		if iName || jName {
+			return iName && !jName
+		}
+		return res[i].Name < res[j].Name
+	})
+	return res
 }
 
-func makeUnion(lhMatchers map[string]*labels.Matcher, rhMatchers map[string]*labels.Matcher) (map[string]*labels.Matcher, bool) {
-	union := make(map[string]*labels.Matcher)
-	for _, m := range lhMatchers {
-		if m.Name == labels.MetricName {
-			continue
+func withoutMetricName(matchers []*labels.Matcher) []*labels.Matcher {
+	res := make([]*labels.Matcher, 0, len(matchers))
+	for _, m := range matchers {
+		if m.Name != labels.MetricName {
+			res = append(res, m)
 		}
-		if duplicateExists(rhMatchers, m) {
-			return nil, true
-		}
-		union[m.Name] = m
 	}
-
-	for _, m := range rhMatchers {
-		if m.Name == labels.MetricName {
-			continue
-		}
-		if duplicateExists(lhMatchers, m) {
-			return nil, true
-		}
-		union[m.Name] = m
-	}
-	return union, false
+	return res
 }
 
-func toMatcherMap(lhSelector *parser.VectorSelector) map[string]*labels.Matcher {
-	lhMatchers := make(map[string]*labels.Matcher)
-	for _, m := range lhSelector.LabelMatchers {
-		lhMatchers[m.Name] = m
+// haveCommonMatcher reports whether some matcher is present on both sides.
+func haveCommonMatcher(lhMatchers, rhMatchers []*labels.Matcher) bool {
+	for _, l := range lhMatchers {
+		for _, r := range rhMatchers {
+			if l.String() == r.String() {
+				return true
+			}
+		}
 	}
-	return lhMatchers
-}
-
-func duplicateExists(matchers map[string]*labels.Matcher, matcher *labels.Matcher) bool {
-	existing, ok := matchers[matcher.Name]
-	if !ok {
-		return false
-	}
-
-	return existing.String() == matcher.String()
+	return false
 }
